@@ -353,6 +353,14 @@ func TestC09Range(t *testing.T) {
 			argFilter = tree.Build()
 		}
 
+		type heldPage struct {
+			col  jsonapi.Collection
+			ids  []string
+			what string
+		}
+
+		held := []heldPage{}
+
 		call := func(col jsonapi.Collection, size, num uint) ([]string, string) {
 			var (
 				f   = argFilter
@@ -375,7 +383,28 @@ func TestC09Range(t *testing.T) {
 				return nil, fmt.Sprintf("Range changed the input collection: %q -> %q", before, after)
 			}
 
-			return idsOf(out), ""
+			got := idsOf(out)
+			held = append(held, heldPage{out, got, fmt.Sprintf("size=%d num=%d", size, num)})
+
+			return got, ""
+		}
+
+		// stillHeld: a page stays what it was when it was returned, whatever
+		// Range is asked afterwards.
+		stillHeld := func() string {
+			for _, h := range held {
+				var now []string
+
+				if p := oracle.Try(func() { now = idsOf(h.col) }); p != nil {
+					return fmt.Sprintf("C09 violated: reading a page returned earlier (%s) %s\ncase: %s", h.what, p, desc)
+				}
+
+				if !reflect.DeepEqual(now, h.ids) {
+					return fmt.Sprintf("C09 violated: the page returned for %s held %q and holds %q after later calls\ncase: %s", h.what, h.ids, now, desc)
+				}
+			}
+
+			return ""
 		}
 
 		// Draws needed by the checks are made once, outside verify.
@@ -501,7 +530,17 @@ func TestC09Range(t *testing.T) {
 				}
 			}
 
-			return ""
+			// Two unrelated requests on the same collection (everything,
+			// by descending and by ascending ID) before the pages returned so
+			// far are read again.
+			if p := oracle.Try(func() {
+				jsonapi.Range(col, nil, nil, []string{"-id"}, uint(len(items)+1), 0)
+				jsonapi.Range(col, nil, nil, []string{"id"}, uint(len(items)+1), 0)
+			}); p != nil {
+				return fmt.Sprintf("C09 violated: Range (everything by ID) %s\ncase: %s", p, desc)
+			}
+
+			return stillHeld()
 		}
 
 		if msg := verify(rules); msg != "" {
